@@ -1317,6 +1317,19 @@ class Engine:
         if t is ast.Mult and (isinstance(a, (list, tuple)) and isinstance(b, int) or
                               isinstance(b, (list, tuple)) and isinstance(a, int)):
             return a * b
+        if t in (ast.BitAnd, ast.BitOr, ast.BitXor, ast.LShift, ast.RShift):
+            if isinstance(a, int) and isinstance(b, int):
+                return {ast.BitAnd: operator.and_, ast.BitOr: operator.or_, ast.BitXor: operator.xor,
+                        ast.LShift: operator.lshift, ast.RShift: operator.rshift}[t](a, b)
+            # Python ints are unbounded two's complement:  x & (2**k - 1) == x mod 2**k,  x << k == x * 2**k,  x >> k == x // 2**k
+            if t is ast.BitAnd:
+                if isinstance(a, int) and isinstance(b, SV):
+                    a, b = b, a
+                if isinstance(a, SV) and a.e.sort() == z3.IntSort() and isinstance(b, int) and b >= 0 and (b & (b + 1)) == 0:
+                    return SV(a.e % z3.IntVal(b + 1))
+            if t in (ast.LShift, ast.RShift) and isinstance(a, SV) and a.e.sort() == z3.IntSort() and isinstance(b, int) and b >= 0:
+                return SV(a.e * z3.IntVal(2 ** b)) if t is ast.LShift else SV(a.e / z3.IntVal(2 ** b))
+            raise Unsupported(f'operator {t.__name__} on {type(a).__name__},{type(b).__name__}')
         f = _BINOPS.get(t)
         if f is None:
             raise Unsupported(f'operator {t.__name__}')
